@@ -19,7 +19,7 @@ CLAIMED = {
  "C10": ("TREE whose letters are pairs (x,y) at the exact rational scalar: seven real instances in lockstep, exact superposition; exhaustive letter cycles; constant streams; long-run / wide / huge-window stream pairs judged at every step", "2.C10"),
  "C12": ("TREE with lockstep instances on a*x+b / -x: exact at Q, bit-exact at f64 for power-of-two scales (2^-70..2^70; 2^+-600 for product-free views) and +-2^52 offsets; long-run / wide-window drivers", "2.C12"),
  "C13": ("TREE at Q and f64 + CLOSURE + exhaustive cycle drivers extended to 10^5/10^6 steps vs batch definitions with exact integer sums; f32 streams past 2^24 values with exactly representable partial sums; tick-sized moves judged on the scale of the move", "2.C13"),
- "C11": ("TREE at f64/Q + exhaustive cycle drivers vs from-scratch batch evaluation of the difference equations; long-run / wide-window and quiet-stretch drivers judged at boundary steps", "2.C11"),
+ "C11": ("TREE at f64/Q + exhaustive cycle drivers vs from-scratch batch evaluation of the difference equations; long-run / wide-window and quiet-stretch drivers judged at boundary steps; every Z3 word behind a delayed inner view (Sma(3), Ema(2))", "2.C11"),
 }
 ALL = ["C%02d" % i for i in range(1, 19)]
 checks = []
